@@ -250,20 +250,9 @@ func (d *Decoder) readObjectDef() (interface{}, error) {
 	//add to slice
 	d.clsDefList = append(d.clsDefList, clsD)
 
-	tag, err := d.readTag()
-	if err != nil {
-		hlog.Debugf("reading tag err:%v", err)
-		return nil, tagReadError(err)
-	}
-
-	if objectLenTag(tag) {
-		return d.ReadLenTagObject(tag)
-	}
-
-	if tag == _objectTag {
-		return d.readTagObject()
-	}
-	return nil, newCodecError("readObjectDef", "unknown tag after class def: 0x%x", tag)
+	// value ::= class-def value: any value may follow a definition (another
+	// definition, or a container whose elements use it), not only an instance
+	return d.ReadData()
 }
 
 // var readObjectIndex = 0
